@@ -6,6 +6,7 @@ import (
 	"encoding/json"
 	"fmt"
 	"sort"
+	"strconv"
 	"strings"
 	"sync"
 	"time"
@@ -155,6 +156,16 @@ func buildDoc(d DocSpec) *docInst {
 			}
 		}
 	}
+	if len(d.Subslice) == 3 {
+		n, _ := strconv.Atoi(d.Subslice[2])
+		for _, v := range []interface{}{di.val, di.pristine} {
+			if m, ok := v.(map[string]interface{}); ok {
+				if src, ok := m[d.Subslice[1]].([]interface{}); ok && n <= len(src) {
+					m[d.Subslice[0]] = src[:n]
+				}
+			}
+		}
+	}
 	if d.Member != "" {
 		// the document is one member of the decoded value (a sub-structure
 		// registered as a variable on its own)
@@ -171,7 +182,7 @@ func tripleKey(text string, doc *docInst, vars map[string]*docInst, exts bool) s
 	if doc != nil {
 		b.WriteString(doc.spec.JSON)
 		b.WriteString(strings.Join(doc.spec.Alias, ">"))
-		b.WriteString("#" + doc.spec.Member)
+		b.WriteString("#" + doc.spec.Member + "#" + strings.Join(doc.spec.Subslice, ","))
 	}
 	b.WriteByte(0)
 	names := make([]string, 0, len(vars))
@@ -512,7 +523,11 @@ func Execute(spec *Spec, opt Options) *Result {
 	if spec.Switches != nil {
 		res.Strategy = "replay"
 	}
-	s := engine.New(strat, spec.Switches, MaxEvents)
+	maxEvents := MaxEvents
+	if spec.MaxEvents > 0 {
+		maxEvents = spec.MaxEvents
+	}
+	s := engine.New(strat, spec.Switches, maxEvents)
 	s.Now, s.Advance = opt.Now, opt.Advance
 	r.sched = s
 	for ti := range spec.Tasks {
